@@ -239,6 +239,41 @@ func ruleC17Matrix(c *Ctx) {
 		return
 	}
 	m := extractMatrix(c, fn)
+	if len(m) < 5 {
+		// the switch may live in a helper that maps the state to the action set; NewReplica must
+		// then publish exactly the keys of the helper's result
+		R := NewRenderer(fn)
+		eachInstr(fn, func(in ssa.Instruction) {
+			cl, ok := in.(*ssa.Call)
+			if !ok || len(m) >= 5 {
+				return
+			}
+			h := cl.Call.StaticCallee()
+			if h == nil || h.Blocks == nil || !isJivaFn(h) || h == fn {
+				return
+			}
+			hm := extractMatrix(c, h)
+			if len(hm) < 5 {
+				return
+			}
+			published := false
+			eachInstr(fn, func(x ssa.Instruction) {
+				if mu, ok := x.(*ssa.MapUpdate); ok && strings.HasSuffix(R.V(mu.Map), ".Actions") && R.V(mu.Key) == "key("+R.V(cl)+")" {
+					published = true
+				}
+			})
+			stateArg := false
+			for _, a := range callArgs(R, cl) {
+				if a == "$1" {
+					stateArg = true
+				}
+			}
+			if published && stateArg {
+				m = hm
+				c.OK(rule, "table computed by "+FnName(h), c.P.InstrPos(in), "NewReplica publishes the keys of "+FnName(h)+"(state)", false)
+			}
+		})
+	}
 	if len(m) < 5 || m["?"] != nil {
 		c.Undecided(rule, "matrix extraction", c.P.Pos(fn.Pos()), fmt.Sprintf("could not read the state switch (states found: %d)", len(m)))
 		return
@@ -321,6 +356,24 @@ func ruleC17Matrix(c *Ctx) {
 				if strings.Contains(s, ".Actions[") && strings.HasSuffix(s, "!=0") {
 					allow = s
 				}
+			}
+			if allow == "" {
+				// the test may be a boolean helper: take the fact its true returns carry
+				eachInstr(cl, func(in ssa.Instruction) {
+					call, ok := in.(*ssa.Call)
+					if !ok || call.Call.StaticCallee() == nil || !isJivaFn(call.Call.StaticCallee()) {
+						return
+					}
+					pos, _ := helperSiteFacts(call.Call.StaticCallee())
+					args := callArgs(R, call)
+					for _, fs := range pos {
+						for _, f := range fs {
+							if strings.Contains(f, ".Actions[") && strings.HasSuffix(f, "!=0") {
+								allow = substParams(f, args)
+							}
+						}
+					}
+				})
 			}
 			if len(dyn) == 1 && allow != "" {
 				c.Guard(rule, cl, dyn, "run handler", nil, atom("action is allowed in the current state", allow))
